@@ -189,7 +189,7 @@ Theorem split_row_cost (A : arith) t pre post pre_ io d :
   s_acb (d_post d) = s_acb pre /\ d_gain d = None.
 Proof.
   intros Hact H. unfold delta_nonsell in H. rewrite Hact in H.
-  bind_as H as m E1. bind_as H as qd E2. bind_as H as nsh E3. bind_as H as diff E4. bind_as H as nall E5.
+  bind_as H as m E1. bind_as H as qd E2. bind_as H as nsh E3. bind_as H as nall E5.
   destruct (Qcltb nall 0); [discriminate|].
   destruct (Qcltb post pre_ && io && negb (Qc_is_integer nsh)); [discriminate|].
   inversion H; subst d. cbn [d_post mk_delta s_acb d_gain]. split; reflexivity.
@@ -213,7 +213,7 @@ Proof.
   unfold valid_tx in Hv. rewrite Hact in Hv. cbn [valid_action] in Hv.
   apply andb_prop in Hv as [Vpost Vpre]. apply Qcltb_true in Vpost, Vpre.
   unfold delta_nonsell in H. rewrite Hact in H.
-  bind_as H as m E1. bind_as H as qd E2. bind_as H as nsh E3. bind_as H as diff E4. bind_as H as nall E5.
+  bind_as H as m E1. bind_as H as qd E2. bind_as H as nsh E3. bind_as H as nall E5.
   destruct (Qcltb nall 0); [discriminate|].
   destruct (Qcltb post pre_ && io && negb (Qc_is_integer nsh)); [discriminate|].
   inversion H; subst d; clear H. cbn [d_post mk_delta s_sh].
